@@ -492,7 +492,7 @@ def oracle_c04_exact(h: History):
         # same seed -> identical frames (exact)
         by_seed = {}
         for r in rs:
-            by_seed.setdefault(r["op"].get("seed"), []).append(r)
+            by_seed.setdefault((r["op"].get("seed"), r["op"].get("seed_t", "py")), []).append(r)
         for seed, g in by_seed.items():
             for r in g[1:]:
                 if r.get("digest") != g[0].get("digest"):
@@ -502,7 +502,7 @@ def oracle_c04_exact(h: History):
                     if d:
                         out.append(_viol("C04", "same-seed-differs", r, f"seed {seed}: op {r['id']} vs op {g[0]['id']}: {d}", plan))
         # different seeds -> identical period 0 (exact)
-        seeds = sorted(by_seed, key=lambda s: (s is None, s))
+        seeds = sorted(by_seed, key=lambda s: (s[0] is None, s[0] or 0, s[1]))
         if len(seeds) > 1:
             b = by_seed[seeds[0]][0]
             b0, _ = frame_rows(b["result"], 0)
